@@ -6,7 +6,7 @@ cd /verif; bin/seedbox.sh sync > /dev/null
 for d in /verif/seeded/${SWEEP_ONLY:-C}*/; do
   n=$(basename $d); prop=${n%%-*}
   patch=$d/patch.diff
-  [ -f $d/patch-rebased-on-11d8424a.diff ] && patch=$d/patch-rebased-on-11d8424a.diff
+  for rb in $d/patch-rebased-on-*.diff; do [ -f $rb ] && git -C /tmp/seedbox/repo apply --check $rb 2>/dev/null && patch=$rb; done
   if ! git -C /tmp/seedbox/repo apply --check $patch 2>/dev/null; then echo "$n: patch does not apply to the current tree" >> work/seedsweep.log; continue; fi
   r=$(bin/seedbox.sh test $patch $prop | grep -E "RESULT|TOOL-ERROR" | tail -1 | cut -c1-150)
   echo "$n: $r" >> work/seedsweep.log
